@@ -55,6 +55,27 @@ func vfGenIDSubset(rt *rapid.T, known []uint32) []uint32 {
 	if rapid.IntRange(0, 2).Draw(rt, "ids_class") != 0 {
 		return nil
 	}
+	// the restriction is a SET given as a list: order, repetitions and the relation between the
+	// end points and the length carry no meaning. A quarter of the lists are built to look like a
+	// contiguous ascending run without being one (first + len-1 == last, arbitrary middle).
+	if len(known) > 0 && rapid.IntRange(0, 3).Draw(rt, "ids_lookalike_run") == 0 {
+		a := known[rapid.IntRange(0, len(known)-1).Draw(rt, "ids_run_base")]
+		n := rapid.IntRange(3, 5).Draw(rt, "ids_run_len")
+		if a < math.MaxUint32-8 {
+			l := []uint32{a}
+			for j := 1; j < n-1; j++ {
+				switch rapid.IntRange(0, 2).Draw(rt, "ids_run_mid") {
+				case 0:
+					l = append(l, a) // repetition
+				case 1:
+					l = append(l, known[rapid.IntRange(0, len(known)-1).Draw(rt, "ids_run_known")])
+				default:
+					l = append(l, a+uint32(n)+uint32(rapid.IntRange(0, 3).Draw(rt, "ids_run_out")))
+				}
+			}
+			return append(l, a+uint32(n)-1)
+		}
+	}
 	var ids []uint32
 	for _, id := range known {
 		if rapid.Bool().Draw(rt, "ids_pick") {
@@ -66,6 +87,9 @@ func vfGenIDSubset(rt *rapid.T, known []uint32) []uint32 {
 	}
 	if len(ids) > 1 && rapid.Bool().Draw(rt, "ids_dup") {
 		ids = append(ids, ids[0])
+	}
+	if len(ids) > 2 && rapid.Bool().Draw(rt, "ids_shuffle") {
+		ids = rapid.Permutation(ids).Draw(rt, "ids_perm")
 	}
 	return ids
 }
